@@ -22,7 +22,8 @@ def tree(name, entry, enforce, desc, loops, canaries=1, sliced=False):
             sfx = "" if sl == 0 else f".slice{sl}"
             what = {0: "", 1: " [slice 1: representation invariant]", 2: " [slice 2: result/placement clauses]", 3: " [slice 3: live-set clauses]"}[sl]
             hs.append(H(name=f"C12.{name}.{tag}{sfx}", file=F, entry=entry, enforce=enforce, funcs=[enforce], geometry=geom,
-                        kind="proof" if geom is None else "bounded", defs=(f"C12_SLICE={sl}",), solver=solver,
+                        kind="proof" if geom is None else "bounded", defs=(f"C12_SLICE={sl}",),
+                        solver=(None if (enforce == "buddy_free" and sl == 3) else solver),
                         bound="" if geom is None else f"reduced arena geometry B_TOTAL_EXP={t}, B_BLOCK_EXP={b} (all well-formed trees of it, all requests)",
                         unwindset=tuple(uw), tiers=tiers, timeout=to, mem_gb=mem, canaries=canaries if sl == 0 else 1, objbits=8,
                         desc=desc + what + " - every well-formed tree, depth loops closed by the constant tree depth (unwinding assertions: complete)"))
@@ -72,7 +73,9 @@ def multi(name, entry, desc, geom, tiers, to=1800, canaries=2, pid="C12"):
 MULTI = [
     multi("rs_malloc", "h_rs_malloc", "size 0 -> NULL, nothing changed; over-size -> NULL, ENOMEM, nothing changed; otherwise a block inside allocator memory, large enough, disjoint from every live block, live blocks stay live, no arena byte altered, INV_MM (checkpoint size accounting) preserved, growth to a new arena", (5, 2), ("quick", "thorough")),
     multi("rs_free", "h_rs_free", "the block dies, others stay, space reusable, INV_MM preserved; the arena lookup finds the arena holding the pointer", (5, 2), ("quick", "thorough")),
-    multi("rs_realloc", "h_rs_realloc", "common prefix preserved (ghost byte), old block released when moved, INV_MM preserved", (5, 2), ("quick", "thorough")),
-    multi("rs_calloc", "h_rs_calloc", "zeroed memory; zero-size, over-size and OVERFLOWING nmemb*size requests fail", (5, 2), ("quick", "thorough")),
+    multi("rs_realloc", "h_rs_realloc", "common prefix preserved (ghost byte), old block released when moved, INV_MM preserved", (4, 1), ("quick",)),
+    multi("rs_realloc", "h_rs_realloc", "common prefix preserved (ghost byte), old block released when moved, INV_MM preserved", (5, 2), ("thorough",), to=3600),
+    multi("rs_calloc", "h_rs_calloc", "zeroed memory; zero-size, over-size and OVERFLOWING nmemb*size requests fail (element sizes sampled, count symbolic)", (4, 1), ("quick",)),
+    multi("rs_calloc", "h_rs_calloc", "zeroed memory; zero-size, over-size and OVERFLOWING nmemb*size requests fail (element sizes sampled, count symbolic)", (5, 2), ("thorough",), to=3600),
 ]
 HARNESSES = tuple(HARNESSES) + tuple(MULTI)
